@@ -29,7 +29,7 @@ TRACEBACK_MESSAGE = MessageType(
 TRACEBACK_MESSAGE._serializer.allow_additional_fields = True
 
 
-def _writeTracebackMessage(logger, typ, exception, traceback):
+def _writeTracebackMessage(logger, typ, exception, traceback, extract_fields=True):
     """
     Write a traceback to the log.
 
@@ -38,9 +38,13 @@ def _writeTracebackMessage(logger, typ, exception, traceback):
     @param exception: The L{Exception} instance.
 
     @param traceback: The traceback, a C{str}.
+
+    @param extract_fields: If false, registered exception extractors are not
+        run on the exception.
     """
     msg = TRACEBACK_MESSAGE(reason=exception, traceback=traceback, exception=typ)
-    msg = msg.bind(**_error_extraction.get_fields_for_exception(logger, exception))
+    if extract_fields:
+        msg = msg.bind(**_error_extraction.get_fields_for_exception(logger, exception))
     msg.write(logger)
 
 
@@ -96,6 +100,19 @@ def write_traceback(logger=None, exc_info=None):
     typ, exception, tb = exc_info
     traceback = "".join(_traceback_no_io.format_exception(typ, exception, tb))
     _writeTracebackMessage(logger, typ, exception, traceback)
+
+
+def _write_extractor_traceback(logger):
+    """
+    Write the traceback of a failed exception extractor to the log.
+
+    Should be called inside the C{except} block that caught it. Exception
+    extractors are not run on this exception: the broken extractor may well
+    be registered for it too, and would then fail again without end.
+    """
+    typ, exception, tb = sys.exc_info()
+    traceback = "".join(_traceback_no_io.format_exception(typ, exception, tb))
+    _writeTracebackMessage(logger, typ, exception, traceback, extract_fields=False)
 
 
 def writeFailure(failure, logger=None):
